@@ -128,18 +128,26 @@ def run_conv(case) -> dict:
     usable = [c.context_id for c in ctxs if c.abstract_syntax.uuid == ECHO_IF[0] and rpc.NDR64 in c.transfer_syntaxes]
     ap = "negotiate" if auth else None
 
+    vt2 = _vt((vt_kind * 5 + 3) % 9) if (stub_len + n_ctx) % 2 else None  # a second call on the same connection, other trailer
+
     def sync_work():
         with rpc.create_rpc_connection(DC, 135, auth_protocol=ap) as c:
             c.bind(ctxs)
             if usable:
-                return c.request(usable[0], 4, stub, verification_trailer=vt)
+                r = c.request(usable[0], 4, stub, verification_trailer=vt)
+                if vt2 is not None:
+                    c.request(usable[0], 4, stub[:7], verification_trailer=vt2)
+                return r
 
     async def async_work():
         c = await rpc.async_create_rpc_connection(DC, 135, auth_protocol=ap)
         async with c:
             await c.bind(ctxs)
             if usable:
-                return await c.request(usable[0], 4, stub, verification_trailer=vt)
+                r = await c.request(usable[0], 4, stub, verification_trailer=vt)
+                if vt2 is not None:
+                    await c.request(usable[0], 4, stub[:7], verification_trailer=vt2)
+                return r
 
     with world.installed(ctx_factory=drive.stub_ctx_factory(cfg, record) if auth else None):
         out = drive.classify(sync_work) if fl == "sync" else drive.classify(lambda: drive.run_async(world, async_work, random.Random(stub_len)))
